@@ -40,7 +40,11 @@ def run(ctx):
     ctx.rule("C01.numbers", "TryFrom<serde_json::Value>: Integer(x) is produced only with x = Int::try_from(num.as_i64()?)?; as_i64 = None or "
                             "try_from = Err give CanonicalJsonError::IntConvert; strings/bools/null pass through unchanged; arrays and objects "
                             "convert every element with the same fallible conversion")
-    dex = D.Dex(w.lookup, adt_discr=w.adt_discr, effects=lambda n: True, unroll=1)
+    # free helper functions of the module are inlined: moving the number conversion into a helper must look the same
+    HELPERS = "ruma_common::canonical_json::value::"
+    def is_helper(n):
+        return n.startswith(HELPERS) and "{closure" not in n and "<" not in n[len(HELPERS):]
+    dex = D.Dex(w.lookup, adt_discr=w.adt_discr, effects=lambda n: True, unroll=1, inline=is_helper)
     f = w.fn(f"<{V} as core::convert::TryFrom<serde_json::value::Value>>::try_from")
     paths = dex.paths(f, [D.sym("val")])
     int_ok = [p for p in paths if p.kind == "ret" and U.is_ok(p.ret) and D.show(U.payload(p.ret)).startswith("CanonicalJsonValue::Integer(")]
@@ -50,7 +54,7 @@ def run(ctx):
         good = D.show(p.ret) == "Result::Ok(CanonicalJsonValue::Integer(TryFrom::try_from(Number::as_i64(val.Number.0).Some.0).Ok.0))" and \
             tv.get("Number::as_i64(val.Number.0)") == "Some" and tv.get("TryFrom::try_from(Number::as_i64(val.Number.0).Some.0)") == "Ok"
         ctx.check(good, "C01.numbers", "C01.numbers:integer-path", w.where(f), bad_msg=f"Integer produced as {D.show(p.ret)[:200]}")
-    cs = [c for _, c in M.calls(f["body"]) if c.get("fn") == "core::convert::TryFrom::try_from"]
+    cs = [c for g in [f] + [h for h in w.all_fns() if is_helper(h["path"]) and "body" in h] for _, c in M.calls(g["body"]) if c.get("fn") == "core::convert::TryFrom::try_from"]
     ctx.check(any(c["fnargs"][:2] == ["js_int::int::Int", "i64"] for c in cs), "C01.numbers", "C01.numbers:int-type", w.where(f),
               bad_msg=f"the range check is not js_int::Int::try_from(i64): {[c['fnargs'] for c in cs]}")
     num_paths = [p for p in paths if any("val.Number.0" in D.show_atom(a) for a, _ in p.conds)]
@@ -65,7 +69,13 @@ def run(ctx):
     objp = [p for p in paths if p.kind == "ret" and U.is_ok(p.ret) and "CanonicalJsonValue::Object(" in D.show(p.ret)]
     good = bool(objp)
     if good:
-        clo = w.fn(f"<{V} as core::convert::TryFrom<serde_json::value::Value>>::try_from::{{closure#1}}")
+        # the member-conversion closure is the one whose parameter is a (key, value) pair (not identified by its ordinal)
+        pre = f"<{V} as core::convert::TryFrom<serde_json::value::Value>>::try_from::{{closure#"
+        cands = [g for g in w.all_fns() if g["path"].startswith(pre) and g["path"].count("{closure") == 1 and "body" in g
+                 and g["body"]["argc"] == 2 and g["body"]["locals"][2].startswith("(")]
+        if len(cands) != 1:
+            raise F.MissingAnchor(f"object member closure of TryFrom<Value> not identified ({len(cands)} candidates)")
+        clo = cands[0]
         cps = dex.paths(clo, [D.sym("env"), ("tup", (D.sym("k"), D.sym("v")))])
         oks = [p for p in cps if p.kind == "ret" and U.is_ok(p.ret)]
         good = len(oks) == 1 and D.show(oks[0].ret) == "Result::Ok((k, TryInto::try_into(v).Ok.0))" and \
